@@ -4,8 +4,12 @@ import Vflow.Proofs.ShiftIpfix
 
 `setBytes sid body` is a set with id `sid` and body `body`.  It is *undecodable* when no template
 `sid` is cached for the exporter (`sid > 255`) or when `sid` is reserved (`4 ≤ sid ≤ 255`).
-(Set ids 0 and 1 are *not* skipped by the decoder: they end the decode with the fatal `invalidSet` /
-`emptyRec`.)  `decodeSet_skips`: the decoder state changes only by the reader moving over the set.
+`decodeSet_skips`: the decoder state changes only by the reader moving over the set.
+`decodeSet_skips_unknownElem`: the same for a data set whose template names an element missing from the
+information model.  `decodeSet_skips_noFields` (F30 repair): the same for a data set whose template has no
+field specifier at all (installed from a template record with field count 0) — and, by the same code path,
+for set id 1, which is decoded with the zero template.  (Set id 0 is *not* skipped: it ends the decode with
+the fatal `invalidSet`.)
 `outer_skips`: hence the outer loop continues on the rest as if the set were absent.
 `outer_ext` (locality of a clean prefix) and `decode_skips` lift this to whole messages.
 -/
@@ -24,6 +28,12 @@ theorem skipErr_nonfatal (sid : Nat) (e : Err) (h : skipErr sid = some e) : e.no
   split at h
   · simp only [Option.some.injEq] at h; subst h; rfl
   · simp at h
+
+/-- what NetFlow v9 treats as non-fatal, IPFIX does too -/
+theorem nonfatalErr_of_nonfatal {e : Err} (h : e.nonfatal = true) : nonfatalErr e = true := by
+  simp [nonfatalErr, h]
+
+theorem nonfatalErr_emptyRec : nonfatalErr .emptyRec = true := rfl
 
 /-- the leftover skip moves over exactly `x` when `x` is what is left of the set -/
 theorem skipRest_rem (ctx : Ctx) (x rest : Bytes) (c2 : Nat) (cache : Cache) (recs : List Record)
@@ -185,7 +195,8 @@ theorem decodeSet_skips_unknownElem (addr : Bytes) (fuel : Nat) (st : St) (sid :
     have h23 : ¬ (sid = 2 ∨ sid = 3) := by omega
     have hres : ¬ (4 ≤ sid ∧ sid ≤ 255) := by omega
     have hz : ¬ sid = 0 := by omega
-    simp only [setLoop, hcc, if_true, if_neg h23, if_neg hres, if_neg hz, hf', Err.nonfatal]
+    simp only [setLoop, hcc, if_true, if_neg h23, if_neg hres, if_neg hz, hf',
+      show nonfatalErr Err.unknownElem = true from rfl]
   rw [hloop]
   simp only [Bool.false_eq_true, if_false]
   obtain ⟨frem, fcnt⟩ := f'
@@ -198,11 +209,116 @@ theorem decodeSet_skips_unknownElem (addr : Bytes) (fuel : Nat) (st : St) (sid :
   have : fcnt + r1.rem.length = cnt + 2 + 2 + body.length := by omega
   rw [this]
 
+/-! ## A data set for a template without fields (F30 repair) -/
+
+/-- the set is decoded with a template that has no field specifier: the template cached under `sid > 255` has
+neither scope nor field specifiers (installed from a template record with field count 0 — the withdrawal format
+of RFC 7011 §8.1 — that was followed by other octets in its set), or `sid = 1`, which takes the data-set path
+with the zero template -/
+def NoFields (c : Cache) (addr : Bytes) (sid : Nat) : Prop :=
+  (sid > 255 ∧ ∃ t, c.lookup addr sid = some t ∧ t.scope = [] ∧ t.fields = []) ∨ sid = 1
+
+/-- the error `decodeSet` reports for such a set: "failed to decodeData" (non-fatal since the F30 repair) if the
+record loop is entered — a body of at least one octet (`minRecordLen` of a template without fields is 1), of at
+least 5 octets for set id 1 (`minLen` stays 5) — and nothing otherwise -/
+def emptyErr (sid : Nat) (body : Bytes) : Option Err :=
+  if body.length ≥ (if sid > 255 then 1 else 5) then some .emptyRec else none
+
+theorem emptyErr_nonfatal (sid : Nat) (body : Bytes) (e : Err) (h : emptyErr sid body = some e) :
+    nonfatalErr e = true := by
+  unfold emptyErr at h
+  by_cases hb : body.length ≥ (if sid > 255 then 1 else 5)
+  · rw [if_pos hb] at h; simp only [Option.some.injEq] at h; subst h; rfl
+  · rw [if_neg hb] at h; simp at h
+
+/-- the loop condition right after the set header of a set that is entirely present -/
+theorem contCond_start (ctx : Ctx) (body rest : Bytes) (c2 : Nat) (hlen : ctx.len = 4 + body.length)
+    (hlt : 4 + body.length < 65536) (hst : c2 = ctx.start + 4) (hm : 1 ≤ minLeft ctx) :
+    contCond ctx ⟨body ++ rest, c2⟩ = decide (body.length ≥ minLeft ctx) := by
+  have hco : consumed16 ctx ⟨body ++ rest, c2⟩ = 4 := by simp only [consumed16, hst]; omega
+  unfold contCond
+  rw [hco, hlen]
+  by_cases hb : body.length ≥ minLeft ctx
+  · have h1 : 4 + body.length > 4 := by omega
+    have h2 : (body ++ rest).length ≥ minLeft ctx := by simp only [List.length_append]; omega
+    have h3 : (4 + body.length + 65536 - 4) % 65536 ≥ minLeft ctx := by omega
+    simp only [decide_eq_true h1, decide_eq_true h2, decide_eq_true h3, decide_eq_true hb, Bool.and_self]
+  · have h3 : ¬ (4 + body.length + 65536 - 4) % 65536 ≥ minLeft ctx := by omega
+    simp only [decide_eq_false h3, decide_eq_false hb, Bool.and_false]
+
+/-- the record loop with a template without fields: one look at the loop condition, then "failed to decodeData"
+without an octet read -/
+theorem setLoop_noFields (ctx : Ctx) (fuel : Nat) (st : St) (hs : ctx.tr.scope = []) (hf : ctx.tr.fields = [])
+    (hid : ctx.setId = 1 ∨ ctx.setId > 255) :
+    setLoop ctx (fuel + 1) st =
+      if contCond ctx st.r then (st, some .emptyRec, false) else (st, none, false) := by
+  have h23 : ¬ (ctx.setId = 2 ∨ ctx.setId = 3) := by omega
+  have hres : ¬ (4 ≤ ctx.setId ∧ ctx.setId ≤ 255) := by omega
+  have hz : ¬ ctx.setId = 0 := by omega
+  have hd : decodeData ctx.tr st.r = (.error .emptyRec, st.r) := by
+    simp only [decodeData, hs, hf, List.append_nil, decFields_nil, List.isEmpty_nil, if_true]
+  simp only [setLoop, if_neg h23, if_neg hres, if_neg hz, hd, nonfatalErr_emptyRec, if_true]
+
+/-- **skip, one set, template without fields** (F30 repair): a data set whose template has no field specifier —
+or a set with id 1 — followed by any `rest` is skipped like an undecodable one: the decoder state changes only
+by the reader moving over the set; the error slot holds the non-fatal `emptyRec` (or nothing, when the body is
+too short for the record loop to be entered).  Any body. -/
+theorem decodeSet_skips_noFields (addr : Bytes) (fuel : Nat) (st : St) (sid : Nat) (body rest : Bytes)
+    (hsid : sid < 65536) (hlen : 4 + body.length < 65536) (hfuel : 0 < fuel)
+    (hrem : st.r.rem = setBytes sid body ++ rest) (hn : NoFields st.cache addr sid) :
+    decodeSet addr fuel st =
+      ({ st with r := ⟨rest, st.r.cnt + (setBytes sid body).length⟩ }, emptyErr sid body) := by
+  obtain ⟨⟨rem, cnt⟩, cache, recs⟩ := st
+  simp only at hrem hn ⊢
+  subst hrem
+  obtain ⟨fuel', rfl⟩ : ∃ f, fuel = f + 1 := ⟨fuel - 1, by omega⟩
+  have hcnt : cnt + (setBytes sid body).length = cnt + 2 + 2 + body.length := by
+    rw [setBytes_length]; omega
+  rw [hcnt]
+  simp only [decodeSet, setBytes, List.append_assoc, rU16_be16 _ _ _ hsid, rU16_be16 _ _ _ hlen]
+  rw [if_neg (by omega)]
+  simp only [setBody, lookupTpl]
+  have hfin : ∀ tr : Template, tr.scope = [] → tr.fields = [] →
+      minLeft ⟨addr, sid, 4 + body.length, cnt, tr⟩ = (if sid > 255 then 1 else 5) → (sid = 1 ∨ sid > 255) →
+      (if (setLoop ⟨addr, sid, 4 + body.length, cnt, tr⟩ (fuel' + 1)
+            ⟨⟨body ++ rest, cnt + 2 + 2⟩, cache, recs⟩).2.2 = true then
+          ((setLoop ⟨addr, sid, 4 + body.length, cnt, tr⟩ (fuel' + 1)
+              ⟨⟨body ++ rest, cnt + 2 + 2⟩, cache, recs⟩).1,
+           (setLoop ⟨addr, sid, 4 + body.length, cnt, tr⟩ (fuel' + 1)
+              ⟨⟨body ++ rest, cnt + 2 + 2⟩, cache, recs⟩).2.1)
+        else skipRest ⟨addr, sid, 4 + body.length, cnt, tr⟩
+          (setLoop ⟨addr, sid, 4 + body.length, cnt, tr⟩ (fuel' + 1)
+              ⟨⟨body ++ rest, cnt + 2 + 2⟩, cache, recs⟩).1
+          (setLoop ⟨addr, sid, 4 + body.length, cnt, tr⟩ (fuel' + 1)
+              ⟨⟨body ++ rest, cnt + 2 + 2⟩, cache, recs⟩).2.1) =
+        (⟨⟨rest, cnt + 2 + 2 + body.length⟩, cache, recs⟩, emptyErr sid body) := by
+    intro tr hsc hfl hml hidc
+    rw [setLoop_noFields _ _ _ hsc hfl hidc]
+    have hm1 : 1 ≤ minLeft ⟨addr, sid, 4 + body.length, cnt, tr⟩ := by rw [hml]; split <;> omega
+    simp only
+    rw [contCond_start _ body rest _ rfl hlen rfl hm1, hml]
+    unfold emptyErr
+    by_cases hb : body.length ≥ (if sid > 255 then 1 else 5)
+    · simp only [decide_eq_true hb, if_true, if_pos hb, Bool.false_eq_true, if_false]
+      exact skipRest_body _ body rest _ cache recs _ rfl hlen rfl
+    · simp only [decide_eq_false hb, Bool.false_eq_true, if_false, if_neg hb]
+      exact skipRest_body _ body rest _ cache recs _ rfl hlen rfl
+  rcases hn with ⟨hbig, t, hlook, h1, h2⟩ | h1
+  · simp only [if_pos hbig, hlook, Option.getD_some]
+    refine hfin t h1 h2 ?_ (Or.inr hbig)
+    simp only [minLeft, if_pos hbig, minRecLen, h1, h2, List.append_nil, List.map_nil, List.sum_nil]
+    rfl
+  · subst h1
+    have hnb : ¬ 1 > 255 := by omega
+    simp only [if_neg hnb, Option.getD_none]
+    refine hfin emptyTpl rfl rfl ?_ (Or.inl rfl)
+    simp only [minLeft]; rw [if_neg hnb, if_neg hnb]
+
 /-- `u` is *skipped* at cache `c` with error slot `e`: it is a whole set (at least the 4-octet
 header), `e` is not a fatal error, and in front of any `rest`, at any count, with any records
 accumulated, `decodeSet` only moves the reader over `u`. -/
 structure Skipped (addr : Bytes) (c : Cache) (u : Bytes) (e : Option Err) : Prop where
-  nonfatal : ∀ x, e = some x → x.nonfatal = true
+  nonfatal : ∀ x, e = some x → nonfatalErr x = true
   len : 4 ≤ u.length
   run : ∀ (fuel k : Nat) (recs : List Record) (rest : Bytes), 0 < fuel →
     decodeSet addr fuel ⟨⟨u ++ rest, k⟩, c, recs⟩ = (⟨⟨rest, k + u.length⟩, c, recs⟩, e)
@@ -210,10 +326,18 @@ structure Skipped (addr : Bytes) (c : Cache) (u : Bytes) (e : Option Err) : Prop
 theorem skipped_of_undecodable (addr : Bytes) (c : Cache) (sid : Nat) (body : Bytes)
     (hsid : sid < 65536) (hlen : 4 + body.length < 65536) (hu : Undecodable c addr sid) :
     Skipped addr c (setBytes sid body) (skipErr sid) where
-  nonfatal := skipErr_nonfatal sid
+  nonfatal := fun x hx => nonfatalErr_of_nonfatal (skipErr_nonfatal sid x hx)
   len := by rw [setBytes_length]; omega
   run := fun fuel k recs rest hf =>
     decodeSet_skips addr fuel ⟨⟨setBytes sid body ++ rest, k⟩, c, recs⟩ sid body rest hsid hlen hf rfl hu
+
+theorem skipped_of_noFields (addr : Bytes) (c : Cache) (sid : Nat) (body : Bytes)
+    (hsid : sid < 65536) (hlen : 4 + body.length < 65536) (hn : NoFields c addr sid) :
+    Skipped addr c (setBytes sid body) (emptyErr sid body) where
+  nonfatal := emptyErr_nonfatal sid body
+  len := by rw [setBytes_length]; omega
+  run := fun fuel k recs rest hf =>
+    decodeSet_skips_noFields addr fuel ⟨⟨setBytes sid body ++ rest, k⟩, c, recs⟩ sid body rest hsid hlen hf rfl hn
 
 /-- the hypothesis on the record decoder may be stated at any count (`ShiftIpfix`) -/
 theorem skipped_of_unknownElem (addr : Bytes) (c : Cache) (sid : Nat) (body : Bytes) (t : Template) (r1 : Rd)
@@ -359,7 +483,7 @@ theorem outer_ext (addr : Bytes) : ∀ (fuelT : Nat) (stT : St) (errs : List Err
           rw [if_pos hFl, hF1]
         | some x =>
           simp only at h
-          by_cases hn : x.nonfatal = true
+          by_cases hn : nonfatalErr x = true
           · rw [if_pos hn] at h
             refine ⟨errs ++ [x], h, ?_⟩
             intro stF stF1 m hFl hF1
@@ -368,7 +492,7 @@ theorem outer_ext (addr : Bytes) : ∀ (fuelT : Nat) (stT : St) (errs : List Err
             simp only [if_pos hn]
           · rw [if_neg hn] at h; simp at h
       obtain ⟨errs1, h1, hstepF⟩ := hstep
-      have hnotfatal : ¬ Fatal e := by
+      have hnotfatal : ¬ FatalI e := by
         rintro ⟨x, hx, hnf⟩
         subst hx
         simp [hnf] at h
